@@ -205,6 +205,64 @@ func (sc *Scenario) Run() *Outcome {
 			runOne(i, c)
 		}
 		x.Rec.SetTag(-1)
+	case "dblclose":
+		// Calls: [0] a token writer call A, [1] a Send B that pauses in the middle of
+		// its element, [2] a Send C. A writes its element and closes its writer; B
+		// is parked inside its lock region; A's writer is closed a second time (a
+		// no-op); C is started: it must block on the output lock until B is done.
+		var wg sync.WaitGroup
+		done := make([]chan struct{}, len(sc.Calls))
+		start := func(i int) {
+			wg.Add(1)
+			done[i] = make(chan struct{})
+			go func() { defer wg.Done(); defer close(done[i]); runOne(i, sc.Calls[i]) }()
+		}
+		if len(sc.Calls) == 3 && sc.Calls[0].Kind == "tokenwriter" {
+			tg.Keep = map[*Call]xmlstream.TokenWriteFlushCloser{}
+			runOne(0, sc.Calls[0])
+			w := tg.Keep[sc.Calls[0]]
+			sc.Calls[1].Mid = true
+			TheGate.Block(MidPoint)
+			start(1)
+			if w != nil && TheGate.WaitParked(MidPoint, 1, 5*time.Second) {
+				base := TheGate.Arrived("send.locked")
+				var second string
+				if p := hx.Catch(func() { second = ErrClass(w.Close()) }); p != "" {
+					o.Problems = append(o.Problems, Problem{"panic", 0, "second Close of the token writer: " + p})
+				}
+				sc.Calls[0].Second += "," + second
+				start(2)
+				inside := false
+				for dl := time.Now().Add(500 * time.Millisecond); time.Now().Before(dl); time.Sleep(200 * time.Microsecond) {
+					if TheGate.Arrived("send.locked") > base {
+						inside = true
+						break
+					}
+				}
+				if inside {
+					o.Problems = append(o.Problems, Problem{"two-in-region", 2, "a Send is past the output lock while another Send is parked in the middle of its element: the second Close of an already closed token writer released the lock of its holder"})
+					// keep the number of Lock and Unlock calls balanced from here on (an
+					// unlock of a free mutex ends the process): once C is through, take
+					// the lock and never give it back; B's unlock releases it
+					select {
+					case <-done[2]:
+					case <-time.After(10 * time.Second):
+					}
+					hx.WithTimeout(5*time.Second, func() { x.S.TokenWriter() })
+				}
+			} else {
+				start(2)
+			}
+		} else {
+			for i := range sc.Calls {
+				start(i)
+			}
+		}
+		TheGate.UnblockAll()
+		if !hx.WithTimeout(30*time.Second, wg.Wait) {
+			o.Problems = append(o.Problems, Problem{"stuck", -1, "concurrent calls did not all return"})
+		}
+		TheGate.UnblockAll()
 	case "conc", "forced":
 		var wg sync.WaitGroup
 		start := func(i int) {
